@@ -1,5 +1,5 @@
 //! Interface shared by the harness and the separately linked plugin (cdylib) used for load_shared_library.
-use savefile_derive::savefile_abi_exportable;
+use savefile_derive::{savefile_abi_exportable, Savefile};
 
 #[savefile_abi_exportable(version = 0)]
 pub trait PlugCb {
@@ -9,4 +9,91 @@ pub trait PlugCb {
 pub trait PlugIface {
     fn twice(&self, x: u32) -> u32;
     fn with_cb(&self, cb: Box<dyn PlugCb>) -> u32;
+}
+
+
+// ---- C11: by-reference arguments between SEPARATELY COMPILED peers ----------------------------------------------------
+// The plugin is also built by another compiler (nightly) with -Zrandomize-layout: the repr(Rust) types below then have
+// a different memory layout on the two sides.
+
+#[derive(Savefile, Clone, Debug, PartialEq, Default)]
+pub struct RustRec {
+    pub a: u8,
+    pub b: u32,
+    pub c: u16,
+    pub d: u64,
+    pub e: u8,
+}
+#[derive(Savefile, Clone, Debug, PartialEq, Default)]
+#[repr(C)]
+pub struct CRec {
+    pub a: u8,
+    pub b: u32,
+    pub c: u16,
+}
+#[derive(Savefile, Clone, Debug, PartialEq, Default)]
+#[repr(C)]
+pub struct CPacked {
+    pub a: u32,
+    pub b: u16,
+    pub c: u16,
+}
+#[derive(Savefile, Clone, Debug, PartialEq)]
+#[repr(u8)]
+pub enum REnum {
+    A(u8),
+    B(u32, u16),
+    C,
+}
+pub fn d_rust(r: &RustRec) -> u64 {
+    r.a as u64 + 3 * r.b as u64 + 5 * r.c as u64 + 7 * (r.d % 1_000_003) + 11 * r.e as u64
+}
+pub fn d_c(r: &CRec) -> u64 {
+    r.a as u64 + 3 * r.b as u64 + 5 * r.c as u64
+}
+pub fn d_packed(r: &CPacked) -> u64 {
+    r.a as u64 + 3 * r.b as u64 + 5 * r.c as u64
+}
+pub fn d_enum(e: &REnum) -> u64 {
+    match e {
+        REnum::A(x) => 1000 + *x as u64,
+        REnum::B(x, y) => 2000 + *x as u64 + 3 * *y as u64,
+        REnum::C => 3000,
+    }
+}
+pub fn d_tuple(t: &(u8, u32, u16)) -> u64 {
+    t.0 as u64 + 3 * t.1 as u64 + 5 * t.2 as u64
+}
+/// [size, align, offsets of a, b, c, d, e] of RustRec, then [size, align, offsets of .0 .1 .2] of (u8, u32, u16)
+pub fn layout_facts() -> Vec<u64> {
+    use std::mem::{align_of, offset_of, size_of};
+    vec![
+        size_of::<RustRec>() as u64,
+        align_of::<RustRec>() as u64,
+        offset_of!(RustRec, a) as u64,
+        offset_of!(RustRec, b) as u64,
+        offset_of!(RustRec, c) as u64,
+        offset_of!(RustRec, d) as u64,
+        offset_of!(RustRec, e) as u64,
+        size_of::<(u8, u32, u16)>() as u64,
+        align_of::<(u8, u32, u16)>() as u64,
+        offset_of!((u8, u32, u16), 0) as u64,
+        offset_of!((u8, u32, u16), 1) as u64,
+        offset_of!((u8, u32, u16), 2) as u64,
+    ]
+}
+
+#[savefile_abi_exportable(version = 0)]
+pub trait LayoutIface {
+    fn rust_rec(&self, r: &RustRec) -> u64;
+    fn c_rec(&self, r: &CRec) -> u64;
+    fn c_packed(&self, r: &CPacked) -> u64;
+    fn renum(&self, e: &REnum) -> u64;
+    fn tuple(&self, t: &(u8, u32, u16)) -> u64;
+    fn vec_rust(&self, v: &Vec<RustRec>) -> u64;
+    fn slice_rust(&self, v: &[RustRec]) -> u64;
+    fn string(&self, s: &String) -> u64;
+    fn echo(&self, r: &RustRec) -> RustRec;
+    /// the layout facts of the IMPLEMENTATION's build
+    fn layouts(&self) -> Vec<u64>;
 }
